@@ -16,7 +16,8 @@ def handleC12 (j : J) : J :=
     let schemas := (j.arrD "schemas").map fun s => (Driver.schemaOfJson (s.getD "schema"), appsOfJson s)
     let calls := (j.arrD "calls").map fun c =>
       let (s, a) := schemas.getD (c.natD "schema") (default, [])
-      (({ indent := c.strD "indent", descriptions := c.boolD "descriptions", custom := c.boolD "custom" } : Opts), s, a)
+      let wl : Option (List String) := match c.get? "whitelist" with | some (.arr a) => some (a.filterMap J.asStr?) | _ => none
+      (({ indent := c.strD "indent", descriptions := c.boolD "descriptions", custom := c.boolD "custom", whitelist := wl } : Opts), s, a)
     .obj [("texts", .arr ((runHistory st calls).map .str))]
   | _ => .obj [("error", .str "bad-op")]
 
